@@ -359,6 +359,8 @@ func run(profilePath, behPath, outPath string) {
 		Types   string `json:"types"` // optional regexp on the type name
 		Hosted  *bool  `json:"hosted"`
 		Workers int    `json:"workers"`
+		Stride  int    `json:"stride"` // program bi runs on type number ti iff (bi+ti+offset) % stride == 0
+		Offset  int    `json:"offset"`
 	}
 	b, err := os.ReadFile(profilePath)
 	if err != nil {
@@ -407,16 +409,20 @@ func run(profilePath, behPath, outPath string) {
 	if len(sel) > 0 && len(sel) < workers {
 		chunks = (workers + len(sel) - 1) / len(sel)
 	}
+	if prof.Stride <= 0 {
+		prof.Stride = 1
+	}
 	type task struct {
 		ti     *typeInfo
+		tidx   int
 		lo, hi int
 	}
 	var tasks []task
-	for _, ti := range sel {
+	for tidx, ti := range sel {
 		for c := 0; c < chunks; c++ {
 			lo, hi := len(progs)*c/chunks, len(progs)*(c+1)/chunks
 			if lo < hi {
-				tasks = append(tasks, task{ti, lo, hi})
+				tasks = append(tasks, task{ti, tidx, lo, hi})
 			}
 		}
 	}
@@ -433,6 +439,9 @@ func run(profilePath, behPath, outPath string) {
 			res := &typeResult{}
 			r := &runner{ti: tk.ti, cache: map[string]string{}, res: res, hosted: hosted}
 			for bi := tk.lo; bi < tk.hi; bi++ {
+				if (bi+tk.tidx+prof.Offset)%prof.Stride != 0 {
+					continue
+				}
 				res.Programs++
 				if !r.runProgram(bi, progs[bi]) {
 					res.Mismatched++
